@@ -1074,7 +1074,12 @@ def call_type(interp, ty, args, kwargs, node):
             return a
         return SCell(str_of(as_v(a)))
     if n == 'object':
-        return Opaque('object')
+        # object(): a fresh sentinel, equal (== and is) to nothing but itself
+        c = smt.fresh_v('object')
+        x = z3.Const('x!obj', V)
+        emit(z3.And(smt.cls(c) == smt.OTHER, smt.truthy(c)))
+        emit(z3.ForAll([x], z3.Implies(z3.Or(smt.py_eq(c, x), smt.py_eq(x, c)), x == c)))
+        return SCell(c)
     if n == 'float':
         return conv_call(interp, 'float', args[0], node)
     raise Unsupported('constructor %s()' % n)
@@ -1268,6 +1273,9 @@ def symbolic_map(interp, it, gen, node, env, keep_and_val, kind):
         hook = getattr(interp, 'filter_hook', None)
         if hook is not None:
             return hook(interp, it, gen, node, env)
+        oc = ordered_complement(interp, it, gen, node, env, kind)
+        if oc is not None:
+            return oc
         if not getattr(interp, 'overapprox_filters', False):
             raise Unsupported('filtered comprehension over a symbolic sequence at %s' % interp.where(node))
         # sound over-approximation (havoc): some list no longer than the source; contents unconstrained
@@ -1287,6 +1295,48 @@ def symbolic_map(interp, it, gen, node, env, keep_and_val, kind):
         sym_exhaust(it)
         return Seq(arr, ln, kind, 'Fresh')
     return drain(interp, MapIter(it, keep_and_val), kind, node)
+
+
+def ordered_complement(interp, it, gen, node, env, kind):
+    """[i for i in range(n) if i not in X]  (the "all other fields" idiom): the ascending list of the integers of the
+    range that are not members of X -- characterised exactly (T6): in range, not in X, strictly ascending, complete."""
+    if not (isinstance(it, SrcIter) and it.arr is None and len(gen.ifs) == 1 and isinstance(gen.target, ast.Name)
+            and isinstance(getattr(node, 'elt', None), ast.Name) and node.elt.id == gen.target.id):
+        return None
+    c = gen.ifs[0]
+    if not (isinstance(c, ast.Compare) and len(c.ops) == 1 and isinstance(c.ops[0], ast.NotIn) and isinstance(c.left, ast.Name)
+            and c.left.id == gen.target.id and isinstance(c.comparators[0], ast.Name)):
+        return None
+    X = interp.eval(c.comparators[0], env)
+    lo = it.range_lo + it.pos
+    n = z3.simplify(it.n - it.pos)
+    hi = lo + n
+    if isinstance(X, (PyList, tuple)):
+        items = X.items if isinstance(X, PyList) else list(X)
+        try:
+            mem = lambda i: z3.Or([to_int(x) == i for x in items] or [z3.BoolVal(False)])
+        except Unsupported:
+            return None
+    elif isinstance(X, Seq):
+        def mem(i):
+            p = smt.fresh_int('p')
+            return z3.Exists([p], z3.And(0 <= p, p < X.len, smt.ival(z3.Select(X.arr, p)) == i))
+    else:
+        return None
+    ln = smt.fresh_int('flen')
+    arr = smt.fresh_arr('others')
+    q, i = smt.fresh_int('q'), smt.fresh_int('i')
+    val = lambda qq: smt.ival(z3.Select(arr, qq))
+    ctx = interp.ctx
+    ctx.assume(z3.And(ln >= 0, ln <= n))
+    ctx.facts.append(z3.ForAll([q], z3.Implies(z3.And(0 <= q, q < ln),
+                                               z3.And(smt.is_int(z3.Select(arr, q)), lo <= val(q), val(q) < hi, z3.Not(mem(val(q)))))))
+    ctx.facts.append(z3.ForAll([q], z3.Implies(z3.And(0 <= q, q + 1 < ln), val(q) < val(q + 1))))
+    ctx.facts.append(z3.ForAll([i], z3.Implies(z3.And(lo <= i, i < hi, z3.Not(mem(i))), z3.Exists([q], z3.And(0 <= q, q < ln, val(q) == i)))))
+    sym_exhaust(it)
+    r = Seq(arr, ln, kind, 'Fresh')
+    r.complement_of = (X, lo, hi)
+    return r
 
 
 def ite_eval(interp, thunk, hyps):
